@@ -99,6 +99,7 @@ func errorRecorded(c *Ctx, rule string, f *ssa.Function, k *ssa.Call, construct 
 func ruleHasBodyGate(c *Ctx, rule string) {
 	// shared with C17 R17.1: the probe itself
 	p := c.P
+	rulePeekCountsOnly(c, rule)
 	hb := p.Fn("rt.HasBody")
 	r := hb.Params[0]
 	isReq := vOrigins(oIsValue(r))
@@ -152,6 +153,16 @@ func runC06(c *Ctx) {
 		{"(*rt/middleware.Context).BindValidRequest", "rt.ContentType", ""},
 	}
 	hasBody := factBool(vOrigins(oCall(-1, "rt.HasBody")), true)
+	// the 415 is pronounced by validateContentType alone (on the parsed type against the route's list): no gate refuses
+	// a content type on grounds of its own (a charset, a parameter, a length)
+	for _, fn := range p.LibFuncs("rt/middleware") {
+		for _, ci := range callsIn(fn, "github.com/go-openapi/errors.InvalidContentType") {
+			if ci.Parent() != fn {
+				continue
+			}
+			c.obD("R06.3", ci, "only-admission-pronounces-415", fnName(fn) == "rt/middleware.validateContentType" || fnName(fn) == "(*rt/middleware.untypedParamBinder).Bind", "errors.InvalidContentType (415) is built by validateContentType only (and by the formData binder for a body that is no form): both gates refuse exactly the types the admission test refuses, ignoring parameters such as charset", "a 415 is built in "+fnName(fn))
+		}
+	}
 	for _, g := range gates {
 		f := p.Fn(g.fn)
 		cts := callsIn(f, g.ctCallee)
@@ -176,6 +187,24 @@ func runC06(c *Ctx) {
 			c.obI("R06.1", ct, "gate-for-every-body", !skipped, "every request for which HasBody answers true goes through the content-type gate, whatever its method (both entry points alike)", "the gate can be skipped although the request carries a body")
 		}
 		errorRecorded(c, "R06.2", f, ct, "parse-error-recorded")
+		// … and every type that parsed is put to the admission question: nothing (a family of media types "handled
+		// elsewhere", a method, a flag) lets a parsed type past validateContentType
+		{
+			parseFailed := factNil(vIs(resultOf(ct, ct.Type().(*types.Tuple).Len()-1)), false)
+			earlier := factLenPositive(vFieldLoad("rt/middleware.validation", "result", nil), true)
+			vcsAll := callsIn(f, "rt/middleware.validateContentType")
+			for _, r := range realReturns(f) {
+				if len(vcsAll) == 0 {
+					break
+				}
+				var vcsI []ssa.Instruction
+				for _, v := range vcsAll {
+					vcsI = append(vcsI, v)
+				}
+				unasked := pathExists(f, ct, r, anyFact(parseFailed, earlier), isOneOf(vcsI...))
+				c.obI("R06.1", r, "admission-asked-for-every-parsed-type", !unasked, "once the Content-Type parsed, every exit of the gate lies behind validateContentType: no media type is waved through unasked", "a parsed media type can pass the gate without the admission test")
+			}
+		}
 		// admission
 		vcs := callsIn(f, "rt/middleware.validateContentType")
 		c.obRF("R06.1", f, "asks-admission", len(vcs) == 1, "the gate asks validateContentType", fmt.Sprintf("%d calls", len(vcs)))
@@ -621,4 +650,53 @@ func stageTable(vr *ssa.Function) (order map[string]int64, guarded bool, found b
 		}
 	}
 	return order, guarded, found
+}
+
+// rulePeekCountsOnly: whether a body has content is decided by HOW MANY bytes can be peeked, never by WHAT they are: the
+// bytes HasContent peeks are only counted (len) — a body that starts with a blank, a line break or any other byte is a
+// body. Shared by C06 (the gate applies to every body) and C17.
+func rulePeekCountsOnly(c *Ctx, rule string) {
+	hc := c.P.Fn("(*rt.peekingReader).HasContent")
+	n := 0
+	for _, fn := range withClosures(hc) {
+		for _, ci := range allCalls(fn) {
+			cc := ci.Common()
+			if !cc.IsInvoke() || cc.Method.Name() != "Peek" {
+				continue
+			}
+			call, ok := ci.(*ssa.Call)
+			if !ok {
+				continue
+			}
+			n++
+			peeked := resultOf(call, 0)
+			if peeked == nil {
+				continue
+			}
+			var visit func(v ssa.Value, d int)
+			visit = func(v ssa.Value, d int) {
+				if v.Referrers() == nil || d > 3 {
+					return
+				}
+				for _, ref := range *v.Referrers() {
+					switch x := ref.(type) {
+					case *ssa.DebugRef:
+					case *ssa.Phi:
+						visit(x, d+1)
+					case *ssa.Slice:
+						visit(x, d+1) // re-sliced: still only a run of bytes
+					case *ssa.Call:
+						if calleeName(&x.Call) == "builtin len" {
+							continue
+						}
+						c.obI(rule, ref, "peeked-bytes-only-counted", false, "the bytes HasContent peeks are only counted (len): whether there is a body never depends on what its first byte is", "the peeked bytes are handed to "+calleeName(&x.Call))
+					default:
+						c.obI(rule, ref, "peeked-bytes-only-counted", false, "the bytes HasContent peeks are only counted (len): whether there is a body never depends on what its first byte is", "the peeked bytes are inspected: "+describe(refValue(ref)))
+					}
+				}
+			}
+			visit(peeked, 0)
+		}
+	}
+	c.obRF(rule, hc, "peeks", n >= 1, "HasContent peeks into the buffered reader", "")
 }
